@@ -45,6 +45,9 @@ def check_plan(res, rng, plan, hows, tmp):
     try:
         idx = NNDescent(X, metric=metric, metric_kwds=kw, n_neighbors=6, random_state=int(rng.integers(1000)),
                         compressed=compressed, tree_init=tree_init)
+        # the caller's own dict is the caller's: re-using it for the next index of a sweep must not reach into this one
+        for k_ in list(kw):
+            kw[k_] = kw[k_] * 2.5 + 1.0
         points = ["fresh", "prepared", "queried"]
         for point in points:
             if point == "prepared":
@@ -151,7 +154,8 @@ def run(res, tier, seed, search):
         k = 3
         start = (seed * k) % len(PLANS)
         fixed = [("cosine", "csr", False, True), ("bit_hamming", "bits", False, True),     # sparse surrogate+correction; bit trees
-                 ("euclidean", "dense32", False, False)]                                    # no tree initialisation, then update()
+                 ("euclidean", "dense32", False, False),                                    # no tree initialisation, then update()
+                 ("minkowski", "dense32", False, True)]                                     # metric arguments
         plans = fixed + [pl for pl in [PLANS[(start + i) % len(PLANS)] for i in range(k)] if pl not in fixed][:1]
         hows = ["pickle%d" % pickle.HIGHEST_PROTOCOL, "joblib"]
     else:
